@@ -47,6 +47,10 @@ func workloads() map[string]families.Workload {
 		for _, w := range families.HeaderVaryWorkloads(families.Codecs3()) {
 			wlCache[w.Name] = w
 		}
+		// one page of 2.4 MB: fixed chunk sizes from a menu instead of all of them
+		for _, w := range families.BigPageWorkloads(families.Codecs3()) {
+			wlCache[w.Name] = w
+		}
 	}
 	return wlCache
 }
@@ -133,10 +137,18 @@ func run(c *fw.Ctx) {
 				}
 			}
 			// (1) fixed chunk sizes, (4) each with data-with-EOF
-			for ch := 1; ch <= maxReq; ch++ {
-				try(fmt.Sprintf("br%v|chunk%d", br, ch), env.SourcePlan{Chunk: ch})
-				if ch <= 8 || ch == maxReq {
+			if strings.HasSuffix(name, "/bigpage") {
+				// 2.6 MB page: a menu of chunk sizes, then the single deviations below
+				for _, ch := range []int{7, 4096, 32768, 65536, 65537, 1000003, 1 << 20, 1<<20 + 1, 2 << 20} {
+					try(fmt.Sprintf("br%v|chunk%d", br, ch), env.SourcePlan{Chunk: ch})
 					try(fmt.Sprintf("br%v|chunk%d|eofdata", br, ch), env.SourcePlan{Chunk: ch, EOFWithData: true})
+				}
+			} else {
+				for ch := 1; ch <= maxReq; ch++ {
+					try(fmt.Sprintf("br%v|chunk%d", br, ch), env.SourcePlan{Chunk: ch})
+					if ch <= 8 || ch == maxReq {
+						try(fmt.Sprintf("br%v|chunk%d|eofdata", br, ch), env.SourcePlan{Chunk: ch, EOFWithData: true})
+					}
 				}
 			}
 			try(fmt.Sprintf("br%v|eofdata", br), env.SourcePlan{EOFWithData: true})
